@@ -375,7 +375,9 @@ class Check:
             if key not in [k for k, _ in self.known]:
                 self.known.append((key, f.get("what", description)))
             return False
-        if len(self.violations) < 50:
+        self._nviol = getattr(self, "_nviol", 0) + 1
+        per_key = sum(1 for k, _, _ in self.violations if k == key)
+        if per_key < 3 and len(self.violations) < 90:
             self.violations.append((key, description, _jsonable(replay)))
         return True
 
@@ -401,7 +403,7 @@ class Check:
             "coverage": cov,
             "assumptions": self.assumptions,
             "wall_s": round(wall, 2),
-            "violations": len(self.violations),
+            "violations": getattr(self, "_nviol", 0),
         }
         with open(os.path.join(evdir, self.pid + ".json"), "w") as f:
             json.dump(ev, f, indent=1, sort_keys=True)
